@@ -10,6 +10,9 @@ class AnchorError(Exception):
     """The anchor could not be resolved in the working tree (=> undecided)."""
 
 
+RUST_KEYWORDS = {"as", "async", "await", "break", "const", "continue", "crate", "dyn", "else", "enum", "extern", "false",
+                 "fn", "for", "if", "impl", "in", "let", "loop", "match", "mod", "move", "mut", "pub", "ref", "return",
+                 "self", "Self", "static", "struct", "super", "trait", "true", "type", "unsafe", "use", "where", "while"}
 QUALIFIERS = {"pub", "const", "async", "unsafe", "default", "extern"}
 
 
@@ -318,7 +321,7 @@ def expand(macro, args):
     pos = _match(pattern, args, 0, binds)
     if pos is None or pos != len(args):
         raise AnchorError("macro %s: invocation does not match its matcher" % macro.name)
-    arg_ids = {t.text for v in binds.values() for t in v if t.kind == "id"} - {"self", "Self", "crate", "super"}
+    arg_ids = {t.text for v in binds.values() for t in v if t.kind == "id"} - RUST_KEYWORDS
     # macro_rules hygiene: an identifier written in the macro body can never refer to a local
     # variable of the call site, so body identifiers that collide with identifiers passed in
     # arguments are macro-local bindings and are renamed.
